@@ -28,18 +28,18 @@ type WriteRec struct {
 
 // Hist is the structured history of one run.
 type Hist struct {
-	Sc      *h.Scenario
-	Res     *simrt.Result
-	Log     []simrt.Entry
-	Ops     []*OpRec
-	Writes  []WriteRec
-	WaitIn  int
-	WaitOut int
-	EndAt   int
-	Finals  map[int]h.FinalRec
-	Debug   []string
-	Added   map[int]*OpRec // bar index -> successful Add
-	Faults  map[string]int
+	Sc       *h.Scenario
+	Res      *simrt.Result
+	Log      []simrt.Entry
+	Ops      []*OpRec
+	Writes   []WriteRec
+	WaitIn   int
+	WaitOut  int
+	EndAt    int
+	Finals   map[int]h.FinalRec
+	Debug    []string
+	Added    map[int]*OpRec // bar index -> successful Add
+	Faults   map[string]int
 	InjectAt int // log index of the injected cancel (-1)
 }
 
